@@ -233,6 +233,8 @@ class Normalizer:
             self._replace_node(f, self.fold_new_constants(f))
         for f in list(repo.funcs.values()):
             self._replace_node(f, self.canonical_syntax(f))
+        for f in list(repo.funcs.values()):
+            self._replace_node(f, self.inline_temps(f))
         self.objects: t.Dict[t.Tuple[str, str], Cls] = {}
         for f in list(repo.funcs.values()):
             self._replace_node(f, self.find_objects(f))
@@ -1734,6 +1736,70 @@ class Normalizer:
                 hit = True
                 self.log["positional"].append(f"{f.qual}:{n.lineno} {unparse(n.func)}")
         return new if hit else None
+
+    # ------------------------------------------------------------------------------------------ N27
+    def inline_temps(self, f: Func) -> t.Optional[FuncNode]:
+        """t1 = g(a); t2 = h(b); x = f(t1, k=t2)   ->   x = f(g(a), k=h(b))
+        for locals that are assigned once, read once - as a direct argument of the call in the statement that follows
+        the run of definitions, in definition order - when every other argument in front of the last of them is pure
+        (so the calls still happen in the same order).  `Extract variable` and its inverse give the same normal form."""
+        fn = f.node
+        hit = [False]
+        loads: t.Dict[str, int] = {}
+        stores: t.Dict[str, int] = {}
+        for n in _walk_no_scopes(fn):
+            if isinstance(n, ast.Name):
+                d = loads if isinstance(n.ctx, ast.Load) else stores
+                d[n.id] = d.get(n.id, 0) + 1
+        params = {a.arg for a in _params(fn)}
+
+        def simple_call(e: t.Optional[ast.expr]) -> bool:
+            return isinstance(e, ast.Call) and _is_pure(e.func) and not any(isinstance(a, ast.Starred) for a in e.args) and all(k.arg for k in e.keywords)
+
+        def block(stmts: t.List[ast.stmt]) -> t.List[ast.stmt]:
+            for s_ in stmts:
+                if isinstance(s_, (ast.FunctionDef, ast.AsyncFunctionDef, ast.ClassDef)):
+                    continue
+                for fld in ("body", "orelse", "finalbody"):
+                    blk = getattr(s_, fld, None)
+                    if isinstance(blk, list) and blk and isinstance(blk[0], ast.stmt):
+                        setattr(s_, fld, block(blk))
+                if isinstance(s_, ast.Try):
+                    for h in s_.handlers:
+                        h.body = block(h.body)
+            cur = list(stmts)
+            changed = True
+            while changed:
+                changed = False
+                for i in range(len(cur) - 1):
+                    d, user = cur[i], cur[i + 1]
+                    if not (isinstance(d, ast.Assign) and len(d.targets) == 1 and isinstance(d.targets[0], ast.Name) and simple_call(d.value)):
+                        continue
+                    nm = d.targets[0].id
+                    if stores.get(nm, 0) != 1 or loads.get(nm, 0) != 1 or nm in params:
+                        continue
+                    v = getattr(user, "value", None) if isinstance(user, (ast.Assign, ast.AnnAssign, ast.Return, ast.Expr, ast.AugAssign)) else None
+                    if not simple_call(v):
+                        continue
+                    call = t.cast(ast.Call, v)
+                    items: t.List[ast.expr] = list(call.args) + [k.value for k in call.keywords]
+                    pos = [p_ for p_, it in enumerate(items) if isinstance(it, ast.Name) and it.id == nm]
+                    if len(pos) != 1 or not all(_is_pure(items[q]) for q in range(pos[0])):
+                        continue
+                    if pos[0] < len(call.args):
+                        call.args[pos[0]] = t.cast(ast.expr, d.value)
+                    else:
+                        call.keywords[pos[0] - len(call.args)].value = t.cast(ast.expr, d.value)
+                    del cur[i]
+                    hit[0] = True
+                    changed = True
+                    break
+            return cur
+
+        new = copy.deepcopy(fn)
+        # counts refer to the copied tree's names just as well (names are strings)
+        new.body = block(list(new.body))
+        return new if hit[0] else None
 
     # ------------------------------------------------------------------------------------------ N26
     def expand_star_args(self, f: Func) -> t.Optional[FuncNode]:
